@@ -372,7 +372,10 @@ fn spawn_worker(bin: &str, inst_name: &str, cfg: &rt::Config, deciding: Option<&
         .arg(inst_name)
         .args(["--p", &cfg.p.to_string(), "--s", &cfg.s.to_string(), "--f", &cfg.f.to_string()])
         .args(["--model", model_name(cfg.model), "--step-cap", &cfg.step_cap.to_string()]);
-    // cfg.k comes from the instance table inside the worker
+    // without --k the instance table inside the worker decides
+    if cfg.k != rt::K_FROM_INSTANCE {
+        cmd.args(["--k", &cfg.k.to_string()]);
+    }
     if let Some(d) = deciding {
         cmd.args(["--deciding", d]);
     }
